@@ -30,3 +30,20 @@ Theorem C12_sample_cov (R : rcfType) (d : vec R) (l : tri R) :
   den (tn l) (Lower L.1 L.2) *m (den (tn l) (Lower L.1 L.2))^T = den (tn l) (Symm d l).
 Proof. by move=> piv L; have [] := chol_sound piv. Qed.
 Print Assumptions C12_sample_cov.
+
+(* the dense solver's draw, with the factor computed by the model (Model/Dense.v): mean + L z, L lower triangular with positive
+   diagonal and L L^T = the covariance, for every symmetric covariance with positive leading principal minors *)
+From TinyGP Require Import Theory.DenseThy.
+Import Order.TTheory Num.Theory.
+Theorem C12_sample_direct (R : rcfType) n c (var : vec R) (S : mat R) (mu : vec R) (z : mat R) :
+  let rops := @fops R Num.sqrt (fun x y => x < y) in
+  let s := MkD n var S (dense_chol rops n S) in
+  let Lm := mx_of n n (d_tril s) in
+  (mx_of n n S)^T = mx_of n n S -> (forall m, (0 < m <= n)%N -> 0 < \det (mx_of m m S)) ->
+  [/\ forall (j : 'I_c) (i : 'I_n), mx_of c n (gp_sample_direct rops c s mu z) j i = nth 0 mu i + (Lm *m mx_of n c z) i j,
+      lower_pos Lm & Lm *m Lm^T = mx_of n n S].
+Proof.
+move=> rops s Lm sym minors; have [lp LLt] := direct_factor var sym minors.
+by split=> // j i; exact: sample_direct.
+Qed.
+Print Assumptions C12_sample_direct.
